@@ -148,6 +148,8 @@ BYTES = ['90', '88e4', '88c0', '6689db', '89d8', '01d8', '8b4304', '894304', '03
          # the same ModRM/SIB byte under different prefixes / mnemonic classes (table rows shared between decodes), whole-register-file instructions,
          # 16-bit address size, relative branches (operand descriptors shared between table entries)
          '8b0418', '648b0418', '668b0418', '8d0418', '8a0418', '8b0424', '368b0424', '8b00', '8a00', '0fb600', '60', '61', '6660', '6661', '9c', '9d',
+         # segment overrides in front of instructions with implicit register operands (cl, dx, al/eax, st): the override belongs to the memory operand only
+         '26d320', 'd320', '2eec', 'ec', '64d3e0', '26ee', 'ee', '36d2e0', '26d800', 'd800', '2ee6e0', '65ef', '26d3f8', '640fa5c3', '0fa5c3', '640fadc3',
          '678b00', '67e800000000', 'e800000000', '670f8400000000', '0f8400000000', '0f8510000000', '66e80000', 'e2fe', '67e2fe', '7405', 'eb05', 'e910000000']
 BAD_BYTES = ['0f', '0fff', 'ff', '66', 'd6' * 0 or 'f1f1f1', '0f0f', '8b']
 LINES = ['mov eax, ebx', 'add eax, 5', 'mov eax, DWORD PTR [ebx+4]', 'mov DWORD PTR [ebx+ecx*4+8], eax', 'push eax', 'pop ebx', 'lea eax, [ebx+esi*2+16]', 'mov ah, ah',
